@@ -163,7 +163,7 @@ def check_quantile(seed, n):
         order = np.argsort(vals, kind="stable")
         lw_sorted = None if lw is None else np.asarray(lw)[order]
         out_sorted = np.array([float(np.asarray(weighted_quantile(vals[order], q, log_weights=lw_sorted, values_sorted=True)).reshape(-1)[0]) for q in qs])
-        shift = float(rng.choice([-7.5, 3.0, 40.0]))
+        shift = float(rng.choice([-7.5, 3.0, 40.0, -800.0, 800.0, -3000.0, 1.0e4]))   # log-weights that include log-likelihoods are of that size in real runs
         lw_shift = np.full(size, shift) if lw is None else np.asarray(lw) + shift
         out_shift = np.array([float(np.asarray(weighted_quantile(vals, q, log_weights=lw_shift)).reshape(-1)[0]) for q in qs])
         out_sorted_shift = np.array([float(np.asarray(weighted_quantile(vals[order], q, log_weights=lw_shift[order], values_sorted=True)).reshape(-1)[0]) for q in qs])
